@@ -189,9 +189,14 @@ def run_real(rig, sc, timeout=40):
     if sc.get("no_capture"):
         args.append("--no-capture")   # tests inherit stdout / stderr; timers, groups and signals as usual
     # direct_spawn: units are spawned without the double-spawn launcher (NEXTEST_DOUBLE_SPAWN=0)
+    env_extra = {"NEXTEST_DOUBLE_SPAWN": "0"} if sc.get("direct_spawn") else {}
+    if sc.get("message_format"):
+        # a machine-readable message format: stdout and stderr of a unit are captured as one stream
+        args += ["--message-format", sc["message_format"]]
+        env_extra["NEXTEST_EXPERIMENTAL_LIBTEST_JSON"] = "1"
     res = rig.run(puppet_scenario(sc), nextest_config(sc), args=args,
                   signals=sigs, timeout=timeout, supervise_stop=True,
-                  env_extra={"NEXTEST_DOUBLE_SPAWN": "0"} if sc.get("direct_spawn") else None)
+                  env_extra=env_extra or None)
     return res
 
 
@@ -519,6 +524,14 @@ def oracle_C11(sc, obs):
             return f"nextest exited at {obs['nextest_exit_t']:.0f} ms, all units should be dead by {kill_at:.0f} ms"
         if obs["nextest_exit_t"] < kill_at - eps:
             return f"nextest exited at {obs['nextest_exit_t']:.0f} ms before the test could have been killed ({kill_at:.0f} ms)"
+    # prompt exit: the test dies of the forwarded signal while a descendant that ignores it keeps the test's output
+    # open -- the unit is over when the leak timeout has passed, and nextest exits then, not when the holder goes away
+    if sc["on_term"] == "exit" and sc.get("hold") and grace > 0 and not stops and len(shut) == 1 \
+            and sc["hold"] > sc["leak"] + 3:
+        done_by = t1 + sc["leak"] * u
+        if obs["nextest_exit_t"] > done_by + 2.5 * eps + 150:
+            return (f"the test died of SIG{n1} at {t1:.0f} ms, a descendant holds its output; every unit was over by "
+                    f"{done_by:.0f} ms (leak timeout), nextest exited only at {obs['nextest_exit_t']:.0f} ms")
     if not any(k == "RunBeginCancel" for k, _ in obs["cancel_events"]):
         return "no RunBeginCancel event after a shutdown signal"
     return None
